@@ -266,10 +266,31 @@ func runC06(w *World) {
 	var cmpN, cmpK int
 	var cmpOK bool
 	caughtUpSeen := 0
+	// cuHist[step] = the follower's internal caught-up state at that step (what the data oracle
+	// below is tied to); what the follower SAYS over its API is tied to it further down
+	var cuHist []bool
+	var saidOps []*Op
 	safety := func() {
 		trackConn()
 		fi := F.inst
-		if fi == nil || fi.dead || !fi.ready() || fi.srv.config.followHost() == "" || !fi.srv.caughtUp() {
+		cu := fi != nil && !fi.dead && fi.ready() && fi.srv.config.followHost() != "" && fi.srv.caughtUp()
+		for len(cuHist) <= w.step {
+			cuHist = append(cuHist, cu)
+		}
+		for _, op := range saidOps {
+			ok := false
+			for st := op.Invoke; st <= op.Return && st < len(cuHist); st++ {
+				if st >= 0 && cuHist[st] {
+					ok = true
+				}
+			}
+			if !ok {
+				w.violate("C06/healthz", "the follower answered %s with %s although it was not caught up at any instant between the command's send (step %d) and its reply (step %d)",
+					op.Cmd.String(), clipStr(op.Reply.String(), 80), op.Invoke, op.Return)
+			}
+		}
+		saidOps = nil
+		if !cu {
 			cmpOK = false
 			return
 		}
@@ -334,6 +355,35 @@ func runC06(w *World) {
 			lo, len(lm.entries), kConn, firstErr, staleSize, sortedBoolKeys(renamed))
 	}
 	w.stepHooks = append(w.stepHooks, safety)
+	// a client keeps asking the follower whether it is healthy / caught up: a positive answer is
+	// legitimate only if the follower was (internally) caught up at some instant while the
+	// command was in flight
+	// (in half of the runs; drawn as a named knob so that older replay files, which have no such
+	// client, keep their schedules)
+	if w.knob("healthprobe", 2) == 1 {
+		hp := w.addActor(F, "127.0.0.1:50950", func() []Cmd {
+			var p []Cmd
+			for i := 0; i < 10; i++ {
+				p = append(p, Cmd{Args: []string{"HEALTHZ"}}, Cmd{Args: []string{"SERVER"}})
+			}
+			return p
+		}())
+		hp.weight = 1
+		hp.onReply = func(op *Op) {
+			said := false
+			switch op.name() {
+			case "healthz":
+				said = op.Reply.String() == "+OK"
+			case "server":
+				said = op.Reply.T == '*' && pairsOf(op.Reply)["caught_up"] == "true"
+			}
+			if !said {
+				return
+			}
+			w.stat("c06.positive_health_answers", 1)
+			saidOps = append(saidOps, op) // judged by the step hook, once this step's state is recorded
+		}
+	}
 
 	// faults
 	nfaults := w.knob("nfaults", 4)
